@@ -3,6 +3,9 @@
 #include "common.h"
 #include "getvalue.h"
 struct gv_ghost gv;
+#ifdef PART_DEF
+CT gv_out;
+#endif
 econf_err nondet_code(void);
 #ifdef IS_STRING
 #define NONDET_CT() ((char *)nondet_ptr())
@@ -70,6 +73,8 @@ int main(void)
     __CPROVER_assert(gv.gv_calls == 1 && gv.kf == kf && gv.group == group && gv.key == key && gv.result == (void *)result,
                      "C11: the defaulted getter asks the plain getter with the caller's arguments");
     __CPROVER_assert(r == gv.gv_ret, "C11: ... and hands on its code");
+    if (gv.gv_ret != ECONF_NOKEY)
+      __CPROVER_assert(out == gv_out, "C11: ... and ONLY then: after any other outcome the result is what the plain getter left");
 #ifndef IS_STRING
     if (gv.gv_ret == ECONF_NOKEY)
     {
